@@ -177,6 +177,11 @@ def v2_tables(tier, seed):
         tabs.append(header("2", -1, {}, b3 + cia + req27[:1], req27[1:] +
                            [tuple_dim("T", ["E", "RL", "RC"], [("-", "-", "-")] + t48),
                             tuple_dim("Env", ["CDP", "TD"], [("-", "-")] + e20)]))
+    # every base vector x requirement spellings that are absent / ND / M (weight 1.0: where the AdjustedImpact cap is the only
+    # difference to Impact) or mixed x environmental groups defined by CDP / TD only or not at all x two temporal cases
+    rq = tuple_dim("R", ["CR", "IR", "AR"], [("-", "-", "-"), ("ND", "ND", "ND"), ("M", "M", "M"), ("ND", "M", "-"), ("H", "-", "ND"), ("L", "ND", "M")])
+    en = tuple_dim("Env", ["CDP", "TD"], [("-", "-"), ("N", "-"), ("-", "H"), ("ND", "H"), ("L", "M"), ("H", "N")])
+    tabs.append(header("2", -1, {}, b3, cia + [rq, en, tuple_dim("T", ["E", "RL", "RC"], [("-", "-", "-"), ("F", "-", "ND")])]))
     # ND table: requirement spellings containing ND / absent, groups that consist only of ND/absent
     reqnd = [dim("2", m, absent=True, nd=True) for m in ["CR", "IR", "AR"]]
     tnd = tuple_dim("T", ["E", "RL", "RC"], [("-", "-", "-"), ("ND", "-", "-"), ("-", "ND", "ND"), ("ND", "ND", "ND"),
